@@ -58,7 +58,8 @@ def gen_plan(prop, run_seed, tier):
     pipe.ensure_noncontrol(spec)
     n_calls = s.randint(6, 14 if tier == "quick" else 30)
     calls = [dict(view=s.choice(VIEWS), fn=s.choice(FUNCS), sub=s.randrange(2**31)) for _ in range(n_calls)]
-    return dict(engine="predsim", prop=prop, screen=spec, model=model, n=w.randint(2, 5), D=w.randint(1, 4),
+    n_holder = w.randint(2, 5) if w.random() < 0.9 else w.choice([33, 40, 65, 70])  # block boundaries of batched helpers
+    return dict(engine="predsim", prop=prop, screen=spec, model=model, n=n_holder, D=w.randint(1, 4),
                 seed=w.randrange(2**31), scale=w.choice([0.3, 1.0, 4.0, 30.0]), steps=calls,
                 generations=w.choice([1, 2, 2, 3]))
 
